@@ -10,8 +10,8 @@ PID = "C06"
 
 # value types / probe families present in the Coq model; engineers adding a family extend
 # gen_ttl.TYPES / gen_ttl.PROBES and these lists
-MODEL_TYPES = ["string", "list", "hash", "zset"]
-MODEL_FAMILIES = ["string", "key", "list", "hash", "zset"]
+MODEL_TYPES = ["string", "list", "hash", "zset", "set", "stream"]
+MODEL_FAMILIES = ["string", "key", "list", "hash", "zset", "set", "stream"]
 
 
 def make_cases(tier, seed):
@@ -39,9 +39,9 @@ def run(ctx):
         ctx, PID, make_cases, runner=ttllib.memx_runner("view"),
         rule="(a) matrix: value type x way of attaching/keeping/removing a deadline (EXPIRE x {none,NX,XX,GT,LT} x "
              "{no, earlier, later existing deadline}, EXPIRE 0/negative/twice, PERSIST, SETEX, SET EX/PX(1,999,1000,1001,1500,2000)/"
-             "EXAT/KEEPTTL/plain/NX/XX GET, MSET, APPEND/INCR/RPUSH/LPOP/LMOVE-self/HSET/HINCRBY+HDEL/ZADD+ZREM, RENAME onto/away/self, DEL+recreate) x each "
+             "EXAT/KEEPTTL/plain/NX/XX GET, MSET, APPEND/INCR/RPUSH/LPOP/LMOVE-self/HSET/HINCRBY+HDEL/ZADD+ZREM/SADD+SREM/SMOVE/XADD, *STORE over a key with deadline, RENAME onto/away/self, DEL+recreate) x each "
              "candidate deadline d x probe instant {d-1s, d-1ms, d, d+1ms, d+1s} x probing command (all "
-             "string/key/list/hash/zset reads and writes incl. MGET, DEL, EXISTS, RENAME, LMOVE, BLPOP, KEYS, HRANDFIELD, ZADD options; quick: one seeded clock phase, thorough: six), "
+             "string/key/list/hash/zset/set/stream reads and writes incl. SUNION/SINTER/SDIFF(STORE), SMOVE, SPOP, XADD, XRANGE, MGET, DEL, EXISTS, RENAME, LMOVE, BLPOP, KEYS, HRANDFIELD, ZADD options; quick: own-family + key-command probes + 10 sampled foreign probes, one seeded clock phase; thorough: all probes, six phases), "
              "dump after attach, after the probe and after TTL/TYPE/EXISTS; (b) timer scenarios (re-created/extended/persisted/"
              "renamed keys vs the old timer, 3 s after the deadline); (c) seeded random TTL-heavy programs with sleeps around "
              "second boundaries; thorough: (d) real-clock TCP sample, TTL 1-2 s, either second accepted for a step that straddles a boundary",
